@@ -199,6 +199,9 @@ if (jj == BADCOL)
 			/*Gstat->procstat[pnum].unpruned++;*/
 #endif		    
 		    }
+#ifdef SLU_MT_VERIF
+		    SLU_MT_VERIF_EVENT(SLUV_DFS_STEP, pnum, krep, ispruned[krep], jj, Glu);
+#endif
 #ifdef CHK_DFS
 if (jj == BADCOL)		    
 {
@@ -272,6 +275,9 @@ if (jj == BADCOL)
 					    /*procstat[pnum].unpruned++;*/
 #endif		    
 					}
+#ifdef SLU_MT_VERIF
+		    SLU_MT_VERIF_EVENT(SLUV_DFS_STEP, pnum, krep, ispruned[krep], jj, Glu);
+#endif
 #ifdef CHK_DFS
 if (jj == BADCOL)
     printf("(%d) psgstrf_panel_dfs[4] %d, ispruned[%d] %d, xdfs %d, maxdfs %d\n",
